@@ -6,6 +6,7 @@ abstract primitives).  Helper lemmas: `KitProofs/Lemmas/CryptoGlue*.lean`.
 import KitProofs.Lemmas.CryptoGlueNF
 import KitProofs.Lemmas.CryptoGlueKWSpec
 import KitProofs.Lemmas.CryptoLaws
+import KitProofs.Lemmas.CryptoGlueRsa
 namespace Kit.CryptoGlue
 open Kit Kit.CryptoGlue.Facts
 
@@ -811,5 +812,93 @@ theorem verify_false_not_error_facts :
     ∀ h ∈ Generated.C03.asymHelpers,
       (h.stdCall = "rsa.VerifyPKCS1v15" ∨ h.stdCall = "rsa.VerifyPSS" → h.mapsErrVerification = true) := by
   decide
+
+/-! ## 8. RSA: concrete lawful instances of the abstract signature scheme
+
+`Kit.Crypto.Rsa` (RFC 8017 over `Nat`) is the independent implementation the harness compares the
+real RS*/PS*/RSA1_5/RSA-OAEP* outputs with; here: its signature schemes are lawful under the RSA
+key equation `(m^d)^e ≡ m (mod n)` (the hypothesis carried by `RsaKey.inv`; its truth for real
+keys is number theory about how keys are generated and is not claimed). -/
+open Kit.Crypto in
+/-- `modPow` is `b^e mod m`, and I2OSP/OS2IP are mutually inverse (RFC 8017 §4). -/
+theorem rsa_primitives_spec :
+    (∀ b e m, modPow b e m = b ^ e % m) ∧
+    (∀ l : Bytes, i2osp l.length (os2ip l) = l) ∧
+    (∀ len x, os2ip (i2osp len x) = x % 256 ^ len) :=
+  ⟨modPow_eq, i2osp_os2ip, os2ip_i2osp⟩
+
+open Kit.Crypto in
+/-- Textbook RSA: verification accepts every signature made with the matching private key, for every
+key satisfying `(m^d)^e ≡ m (mod n)`. -/
+theorem rsa_verify_sign : rsaTextbook.Lawful := by
+  intro key digest r sig hs
+  simp only [rsaTextbook] at hs ⊢
+  injection hs with hs
+  subst hs
+  have hm : os2ip digest % key.n < key.n := Nat.mod_lt _ key.npos
+  have hs_lt : modPow (os2ip digest % key.n) key.d key.n < 256 ^ key.k := by
+    rw [modPow_eq]
+    exact Nat.lt_trans (Nat.mod_lt _ key.npos) key.hhi
+  rw [if_pos]
+  refine ⟨i2osp_length _ _, ?_⟩
+  rw [os2ip_i2osp, Nat.mod_eq_of_lt hs_lt]
+  exact rsa_vp1_sp1 key _ hm
+
+open Kit.Crypto in
+/-- RSASSA-PKCS1-v1_5 as implemented in `Kit.Crypto.Rsa` (EMSA-PKCS1-v1_5 encoding, length and range
+checks, I2OSP comparison): VERIFY accepts what SIGN produced, for every hash and every such key. -/
+theorem rsa_pkcs1v15_verify_sign (h : RsaHash) : (rsaPkcs1v15 h).Lawful := by
+  intro key digest r sig hs
+  simp only [rsaPkcs1v15] at hs ⊢
+  cases hsig : rsaSignPkcs1v15 key.n key.d h digest with
+  | none => rw [hsig] at hs; cases hs
+  | some s =>
+    rw [hsig] at hs
+    injection hs with hs
+    subst hs
+    unfold rsaSignPkcs1v15 at hsig
+    simp only [key.hk] at hsig
+    by_cases hd : digest.length ≠ h.size
+    · rw [if_pos hd] at hsig; cases hsig
+    · rw [if_neg hd] at hsig
+      cases hem : emsaPkcs1v15 h digest key.k with
+      | none => rw [hem] at hsig; cases hsig
+      | some em =>
+        rw [hem] at hsig
+        simp only [Option.map_some] at hsig
+        injection hsig with hsig
+        obtain ⟨hlen, rest, hrest⟩ := emsaPkcs1v15_shape h digest key.k em hem
+        -- the message representative is below the modulus
+        have hmlt : os2ip em < key.n := by
+          rw [hrest, os2ip_cons_zero]
+          have hr : rest.length = key.k - 1 := by
+            have := hlen; rw [hrest] at this; simp at this; omega
+          have := os2ip_lt rest
+          rw [hr] at this
+          exact Nat.lt_of_lt_of_le this key.hlo
+        have hslt : modPow (os2ip em) key.d key.n < key.n := by
+          rw [modPow_eq]; exact Nat.mod_lt _ key.npos
+        have hos : os2ip s = modPow (os2ip em) key.d key.n := by
+          rw [← hsig, os2ip_i2osp, Nat.mod_eq_of_lt (Nat.lt_trans hslt key.hhi)]
+        have hsl : s.length = key.k := by rw [← hsig]; exact i2osp_length _ _
+        have hv : rsaVerifyPkcs1v15 key.n key.e h digest s = true := by
+          unfold rsaVerifyPkcs1v15
+          simp only [key.hk]
+          rw [if_neg (by rw [hos]; omega), hem]
+          simp only
+          rw [hos, rsa_vp1_sp1 key _ hmlt, ← hlen, i2osp_os2ip]
+          simp
+        rw [if_pos hv]
+
+/-- `sig_verify_sign` has a concrete satisfiable instance: textbook RSA with the toy key
+(n = 187, e = 7, d = 23), dispatched as RS256 with an RSA private key. -/
+example : ∃ sig, signPrivateKey rsaTextbook "RS256" .rsaPriv toyRsaKey [1, 2, 3] [] = .ok sig ∧
+    verifyPublicKey rsaTextbook "RS256" .rsaPriv (rsaTextbook.pub toyRsaKey) [1, 2, 3] sig = .ok true := by
+  have hs : ∃ sig, signPrivateKey rsaTextbook "RS256" .rsaPriv toyRsaKey [1, 2, 3] [] = .ok sig := by
+    have hd : asymOutcome "SignPrivateKey" "RS256" .rsaPriv = .ok () := by decide
+    exact ⟨_, by simp only [signPrivateKey, hd]; rfl⟩
+  obtain ⟨sig, hsig⟩ := hs
+  exact ⟨sig, hsig, sig_verify_sign rsaTextbook rsa_verify_sign "RS256" .rsaPriv toyRsaKey [1, 2, 3] [] sig
+    (by decide) hsig⟩
 
 end Kit.CryptoGlue
